@@ -127,3 +127,13 @@ Inductive upd : Type := UNone | UUtc | UOther.
 Definition upd_none (u : upd) : bool := match u with UNone => true | _ => false end.
 Definition upd_truthy (u : upd) : bool := negb (upd_none u).
 Definition upd_utc (u : upd) : bool := match u with UUtc => true | _ => false end.
+
+(* ---- control flow of a setter with early returns ---------------------------------------- *)
+Inductive flow : Type := FNext | FRaise (e : err) | FReturn.
+Fixpoint fseqs (l : list flow) : flow :=
+  match l with
+  | [] => FNext
+  | s :: r => match s with FNext => fseqs r | x => x end
+  end.
+Definition fwhen (c : bool) (b : flow) : flow := if c then b else FNext.
+Definition flow_err (f : flow) : option err := match f with FRaise e => Some e | _ => None end.
